@@ -92,6 +92,21 @@ def recover(ctx, tree, sc, what, rep, targets=None):
     if rc != 0 or b"no work to do" not in so:
         ctx.violation("C07/recovery-not-converged", "%s: run after recovery: rc=%s %s" % (what, rc, so.decode("latin-1")[-300:]), rep)
         return False
+    # "identical to a clean build" also means nothing more than a clean build leaves: a response file is gone once its command
+    # has succeeded, the depfile of a deps=gcc statement once it has been read - also when ninja died in between and the
+    # recovery build found nothing left to do for that statement
+    if targets is None:
+        for s_ in sc["stmts"]:
+            if s_["kind"] == "phony":
+                continue
+            ctx.count("stray_file_checks_after_recovery")
+            if s_["rsp"] and os.path.exists(tree.path(s_["rsp"])):
+                ctx.violation("C07/response-file-left-after-recovery", "%s: %s still exists after the recovery build succeeded and found nothing more to do "
+                              "(a clean build removes it)" % (what, s_["rsp"]), rep)
+                return False
+            if s_["deps"] == "gcc" and s_["depfile"] and os.path.exists(tree.path(s_["depfile"])):
+                ctx.violation("C07/depfile-left-after-recovery", "%s: %s (deps = gcc) still exists after recovery" % (what, s_["depfile"]), rep)
+                return False
     # whatever the dead ninja left lying around (temporary files of a recompaction it did not finish) must not come back
     # to life when the logs are compacted later
     rc, so, se = tree.run(["-t", "recompact"])
